@@ -101,9 +101,15 @@ def setup_engine(world, reg, qual) -> tuple[Engine, State, dict]:
     outer_bound = set()
     o = fi.outer
     top = fi
+    eng.free_depth = {}          # free variable -> how many closure levels up it is bound (1 = directly enclosing function)
+    depth = 0
     while o:
+        depth += 1
         ofi = world.funcs[o]
-        outer_bound |= bound_names(ofi.node)
+        ob = bound_names(ofi.node)
+        for n in ob:
+            eng.free_depth.setdefault(n, depth)
+        outer_bound |= ob
         top = ofi
         o = ofi.outer
     used = {n.id for n in ast.walk(fnode) if isinstance(n, ast.Name)}
@@ -140,10 +146,11 @@ def setup_engine(world, reg, qual) -> tuple[Engine, State, dict]:
         env = fresh("p_env")
         st.assume(Val.is_ref(env), Val.a(env) >= 0, Val.a(env) < st.alloc)
         args["__env__"] = SV(env, ANY)
-        st.envref = Val.a(env)
-        if eng.cellvars:
-            raise Untranslatable("closure with its own cell variables nested in a closure")
-    elif eng.cellvars or True:
+        st.ghost["outer_env"] = Val.a(env)
+        # this activation's own cell environment, linked to the enclosing one
+        st.envref = st.new_ref(owned=True, kind="env")
+        st.set_fld("cell:__parent__", st.envref, env)
+    else:
         st.envref = st.new_ref(owned=True, kind="env")
     for n, v in args.items():
         if n != "__env__":
